@@ -358,7 +358,7 @@ class Contract:
                  raises=None, warns=None, shapes=None, shapes_thorough=None,
                  label=None,
                  may_raise=(), returns=None, modular=False, note=None,
-                 cross_check=True, frame=None):
+                 cross_check=True, frame=None, ghost=None, tier='quick'):
         self.target = target
         self.prop = prop
         self.args = args              # dict or callable(**shape) -> dict
@@ -375,6 +375,8 @@ class Contract:
         self.note = note
         self.cross_check = cross_check
         self.frame = frame
+        self.ghost = ghost or {}
+        self.tier = tier
 
     @property
     def name(self):
